@@ -496,12 +496,21 @@ func runC14(r *Run) {
 						}
 					}
 				}
+				// the height comes from the stored force-seal mark (not from the validator-update block, which
+				// the block that first initialised the oracle state writes as well, without sealing anything)
 				fromChange := len(calls) >= 2
 				for _, hc := range calls {
 					last := hc.Args[len(hc.Args)-1]
 					good := false
 					for _, d := range rv.defsOf(rv.objOf(last)) {
-						if strings.Contains(exprString(d), ".Block") {
+						ok := false
+						ast.Inspect(d, func(n ast.Node) bool {
+							if id, isID := n.(*ast.Ident); isID && rv.objOf(id) != nil && resolvesToCallV(rv, id, "GetForceSealBlock") {
+								ok = true
+							}
+							return true
+						})
+						if ok {
 							good = true
 						}
 					}
@@ -511,6 +520,59 @@ func runC14(r *Run) {
 				}
 				okSites = fromChange && nBefore >= 2
 			}
+		}
+		// the mark is written by exactly the EndBlock arm that force-seals
+		if ev := w.View("x/oracle", "AppModule.EndBlock"); ev != nil {
+			okMark, nMark := true, 0
+			for _, c := range ev.CallsNamed("SetForceSealBlock") {
+				nMark++
+				blk := ev.innermostBlock(c)
+				sets := false
+				if blk != nil {
+					for _, st := range blk.List {
+						if as, isAs := st.(*ast.AssignStmt); isAs && len(as.Lhs) == 1 && len(as.Rhs) == 1 && exprString(as.Rhs[0]) == "true" {
+							for _, sc := range ev.CallsNamed("SealRound") {
+								if len(sc.Args) == 2 && ev.objOf(sc.Args[1]) == ev.objOf(as.Lhs[0]) {
+									sets = true
+								}
+							}
+						}
+					}
+				}
+				if !sets {
+					okMark = false
+				}
+			}
+			// and every place that turns the force flag on writes the mark
+			ast.Inspect(ev.Decl.Body, func(n ast.Node) bool {
+				as, isAs := n.(*ast.AssignStmt)
+				if !isAs || len(as.Lhs) != 1 || len(as.Rhs) != 1 || exprString(as.Rhs[0]) != "true" || as.Tok != token.ASSIGN {
+					return true
+				}
+				isFlag := false
+				for _, sc := range ev.CallsNamed("SealRound") {
+					if len(sc.Args) == 2 && ev.objOf(sc.Args[1]) == ev.objOf(as.Lhs[0]) {
+						isFlag = true
+					}
+				}
+				if !isFlag {
+					return true
+				}
+				blk := ev.innermostBlock(as)
+				has := false
+				if blk != nil {
+					for _, c := range allCalls(blk) {
+						if ev.calleeName(c) == "SetForceSealBlock" {
+							has = true
+						}
+					}
+				}
+				if !has {
+					okMark = false
+				}
+				return true
+			})
+			r.check(okMark && nMark >= 1, "C14.R1", "replay|force-seal-marked", ev.pos(ev.Decl), "EndBlock marks exactly the blocks in which it force-seals", "the force-seal mark is not written in (exactly) the arm that turns the force flag of SealRound on: the rebuild replays a force-seal that did not happen, or misses one that did")
 		}
 		r.check(okHelper, "C14.R1", "replay|force-seal-reproduced", rv.pos(rv.Decl), "the force-seal of a validator-set change is reproduced as the live EndBlock did it: rounds of the previous block prepared, all sealed at the change's height", "no helper of the rebuild calls PrepareRoundEndBlock(h-1) and then SealRound(ctx.WithBlockHeight(h), true)")
 		r.check(okSites, "C14.R1", "replay|force-seal-before-first-prepare", rv.pos(rv.Decl), "both arms of the rebuild reproduce the force-seal before they prepare any round, with the height of the validator-set change", "the rebuild does not reproduce the force-seal of the validator-set change that bounds the window (in both arms, before PrepareRoundEndBlock): a round whose window is still running is re-created open on the restarted node, which accepts submissions the other nodes reject and closes the round twice")
